@@ -9,12 +9,16 @@ import (
 )
 
 var cmds = map[string]func([]string) error{
-	"c03": props.C03,
-	"c04": props.C04,
-	"c14": props.C14,
-	"c16": props.C16,
-	"c19": props.C19,
-	"c20": props.C20,
+	"c01":       props.C01,
+	"c02":       props.C02,
+	"c02worker": props.C02Worker,
+	"c02hex":    props.C02Hex,
+	"c03":       props.C03,
+	"c04":       props.C04,
+	"c14":       props.C14,
+	"c16":       props.C16,
+	"c19":       props.C19,
+	"c20":       props.C20,
 }
 
 func main() {
